@@ -72,6 +72,9 @@ def states(tier, seed):
     # (d') the user's mesh array in another memory layout (Fortran order, strided view, read-only): identical results
     for cfg, layout in itertools.product(LAYOUT_MENU, ["f", "nc", "ro"]):
         st.append(dict(part="layout", cfg=cfg, layout=layout, fam=fam))
+    # (e3) the MPhys builder: every ordered pair of option sets; the second builder's effective configuration compared with a fresh interpreter
+    for a_, b_ in itertools.product(range(len(BUILDER_MENU)), repeat=2):
+        st.append(dict(part="builderfresh", a=a_, b=b_, fam=fam))
     # (e'') the mesh generator: every ordered pair of mesh dictionaries (also twice the same), second one compared with a fresh interpreter
     for a_, b_ in itertools.product(range(len(GEN_MENU)), repeat=2):
         st.append(dict(part="genfresh", a=a_, b=b_, fam=fam))
@@ -184,6 +187,37 @@ def gen_call(k):
     arrays = [np.array(a, dtype=float) for a in (out if isinstance(out, tuple) else (out,))]
     same = set(d) == set(before) and all(np.array_equal(d[key], before[key]) for key in before)
     return arrays, same
+
+
+BUILDER_MENU = [None, {"compressible": False}, {"user_specified_Sref": True}, {"write_solution": False, "output_dir": "./somewhere/"}, {"compressible": False, "user_specified_Sref": True, "write_solution": False}]
+
+
+def builder_call(k):
+    """one MPhys AeroBuilder with option set k (a private copy); returns its effective configuration: its own option table and
+    the options of the coupling / post-coupling subsystems it hands out, encoded as numbers"""
+    from openaerostruct.mphys.aero_builder import AeroBuilder
+
+    m = gen.make_mesh("swept", 2, 3, "left", 0)
+    surfs = [builders.aero_surface("wing", m, True)]
+    opts = None if BUILDER_MENU[k] is None else dict(BUILDER_MENU[k])
+    b = AeroBuilder(surfs, options=opts)
+    cg, pg = b.get_coupling_group_subsystem(), b.get_post_coupling_subsystem()
+    eff = [b.options["compressible"], b.options["user_specified_Sref"], b.options["write_solution"], len(b.options["output_dir"]), cg.options["compressible"], pg.options["user_specified_Sref"], pg.options["write_solution"], len(pg.options["output_dir"])]
+    return [np.array([float(x) for x in eff])]
+
+
+def part_builderfresh(s):
+    a, b = s["a"], s["b"]
+    alone = fresh_digest(dict(builders=[b]), s["fam"])
+    after = fresh_digest(dict(builders=[a, b]), s["fam"])
+    if alone[0] == "ERROR":
+        raise RuntimeError("fresh-process job failed for builder option set %d: %s" % (b, alone[1]))
+    viol = []
+    if after[0] == "ERROR":
+        viol.append(dict(sig=dict(oracle="fresh_process_pair", kind="exception", what="AeroBuilder"), msg="AeroBuilder(options=%r) fails after AeroBuilder(options=%r) in a fresh process: %s" % (BUILDER_MENU[b], BUILDER_MENU[a], after[1][-200:]), measure=1.0))
+    elif after[0] != alone[0]:
+        viol.append(dict(sig=dict(oracle="fresh_process_pair", kind="different_results", what="AeroBuilder"), msg="AeroBuilder(options=%r) is configured differently (options / subsystems %s instead of %s) when AeroBuilder(options=%r) was created before it in the same (fresh) process" % (BUILDER_MENU[b], after[1], alone[1], BUILDER_MENU[a]), measure=1.0))
+    return dict(viol=viol, nontrivial=True, digest="bld:%d:%d:%s" % (a, b, after[0][:8]), transitions=4, validated=2)
 
 
 def part_genfresh(s):
